@@ -114,6 +114,7 @@ def run(chk, prog):
     from . import C32
 
     tmp = Check("C32", chk.tier, chk.seed, write_evidence=False)
+    tmp.nested = True
     C32.run(tmp, prog)
     viol = {(v["rule"], v["instance"]): v for v in tmp.violations}
     k = 0
